@@ -2,6 +2,35 @@
 //@@ include prelude/str_eq.rs
 verus! {
 //@@ include contracts/inc_set_grammar.rs
+/// DEL / EXISTS over the key list the script path's parser hands on (the direct handlers are proved against del_upto / exists_upto over
+/// the argument frames; the lemmas say the two forms agree when every argument is a bulk string — the only shape a script can produce)
+pub open spec fn del_vec(ds: DS, ttl: TTL, db: int, keys: Seq<Vec<u8>>, n: int) -> (int, DS, TTL)
+    decreases n
+{
+    if n <= 0 { (0, ds, ttl) } else {
+        let p = del_vec(ds, ttl, db, keys, n - 1);
+        (p.0 + (if p.1.contains_key((db, keys[n - 1]@)) { 1int } else { 0int }), p.1.remove((db, keys[n - 1]@)), p.2.remove((db, keys[n - 1]@)))
+    }
+}
+pub open spec fn exists_vec(ds: DS, db: int, keys: Seq<Vec<u8>>, n: int) -> int
+    decreases n
+{
+    if n <= 0 { 0 } else { exists_vec(ds, db, keys, n - 1) + (if ds.contains_key((db, keys[n - 1]@)) { 1int } else { 0int }) }
+}
+pub proof fn lemma_del_vec_is_upto(ds: DS, ttl: TTL, db: int, parts: Seq<RespFrame>, n: int)
+    requires all_bulk(parts, 1), 0 <= n <= parts.len() - 1,
+    ensures del_vec(ds, ttl, db, args_from(parts, 1), n) == del_upto(ds, ttl, db, parts, n + 1),
+    decreases n
+{
+    if n > 0 { lemma_del_vec_is_upto(ds, ttl, db, parts, n - 1); assert(parts[n] matches RespFrame::BulkString(Some(_))); }
+}
+pub proof fn lemma_exists_vec_is_upto(ds: DS, db: int, parts: Seq<RespFrame>, n: int)
+    requires all_bulk(parts, 1), 0 <= n <= parts.len() - 1,
+    ensures exists_vec(ds, db, args_from(parts, 1), n) == exists_upto(ds, db, parts, n + 1),
+    decreases n
+{
+    if n > 0 { lemma_exists_vec_is_upto(ds, db, parts, n - 1); assert(parts[n] matches RespFrame::BulkString(Some(_))); }
+}
 /// MODEL of UnifiedCommandExecutor (the implementation scripts reach through redis.call): the storage engine model
 pub struct UnifiedCommandExecutor { pub storage: EngineModel }
 impl UnifiedCommandExecutor {
@@ -32,6 +61,43 @@ impl UnifiedCommandExecutor {
                 else { r matches Ok(fr) && fr == RespFrame::Integer(1i64) && final(self).storage.ds@ == ds.remove(a).insert(b, ds[a])
                         && final(self).storage.ttl@ == (if ttl.contains_key(a) { ttl.remove(a).insert(b, ttl[a]) } else { ttl.remove(a).remove(b) }) }
             }),
+//@@ body
+//@@ end
+
+//@@ unit exec_del arm src/storage/commands/executor.rs UnifiedCommandExecutor::execute_string "StringCommand::Del { keys }"
+//@@   rewrite RT "let mut deleted = 0;" "let mut deleted: i64 = 0;"
+//@@   rewrite RFOR 0 it
+//@@   loop 0
+//@@|     invariant
+//@@|         it.seq() == keys@, it.history@ =~= it.seq().take(it.index@), 0 <= deleted <= it.index@,
+//@@|         (deleted as int, self.storage.ds@, self.storage.ttl@) == del_vec(old(self).storage.ds@, old(self).storage.ttl@, db as int, keys@, it.index@ as int),
+//@@|     ensures it.index@ == keys@.len(),
+//@@   loopstart 0
+//@@|     proof { assert(keys@[it.index@ as int] == key); reveal_with_fuel(del_vec, 2); }
+    fn exec_del(&mut self, db: usize, keys: Vec<Vec<u8>>) -> (r: Result<RespFrame>)
+        ensures ({
+                let s = del_vec(old(self).storage.ds@, old(self).storage.ttl@, db as int, keys@, keys@.len() as int);
+                // C12: the keys go left to right, a key named twice counts once, the reply is the number that were there (handle_del)
+                r == Ok::<RespFrame, FerrousError>(RespFrame::Integer(s.0 as i64)) && final(self).storage.ds@ == s.1 && final(self).storage.ttl@ == s.2
+            }),
+//@@ body
+//@@ end
+
+//@@ unit exec_exists arm src/storage/commands/executor.rs UnifiedCommandExecutor::execute_key "KeyCommand::Exists { keys }"
+//@@   rewrite RT "let mut count = 0;" "let mut count: i64 = 0;"
+//@@   rewrite RFOR 0 it
+//@@   loop 0
+//@@|     invariant
+//@@|         it.seq() == keys@, it.history@ =~= it.seq().take(it.index@), 0 <= count <= it.index@,
+//@@|         self.storage.ds@ == old(self).storage.ds@, self.storage.ttl@ == old(self).storage.ttl@,
+//@@|         count as int == exists_vec(old(self).storage.ds@, db as int, keys@, it.index@ as int),
+//@@|     ensures it.index@ == keys@.len(),
+//@@   loopstart 0
+//@@|     proof { assert(keys@[it.index@ as int] == key); reveal_with_fuel(exists_vec, 2); }
+    fn exec_exists(&mut self, db: usize, keys: Vec<Vec<u8>>) -> (r: Result<RespFrame>)
+        ensures final(self).storage.ds@ == old(self).storage.ds@, final(self).storage.ttl@ == old(self).storage.ttl@,
+            // C12: a key named twice counts twice (handle_exists)
+            r == Ok::<RespFrame, FerrousError>(RespFrame::Integer(exists_vec(old(self).storage.ds@, db as int, keys@, keys@.len() as int) as i64)),
 //@@ body
 //@@ end
 }
